@@ -43,6 +43,9 @@ func H_C13_variable_hist() {
 	var log, want []c13Pair
 	var unsub func()
 	cur := uint8(0)
+	// a second, permanent observer: whatever the first subscriber does (also unsubscribing twice), it sees every change
+	var obs, wantObs []c13Pair
+	v.OnUpdate(func(p, nx uint8) { obs = append(obs, c13Pair{p, nx}) })
 	for w := 0; w <= n; w++ {
 		if w == subAt {
 			unsub = v.OnUpdate(func(p, nx uint8) { log = append(log, c13Pair{p, nx}) }, withZero)
@@ -53,6 +56,9 @@ func H_C13_variable_hist() {
 		}
 		if w == unsubAt && unsub != nil {
 			unsub()
+			if verifrt.Choose("unsubscribeTwice", 2) == 1 {
+				unsub() // idempotent
+			}
 			unsub = nil
 			verifrt.Cover("unsubscribed")
 		}
@@ -75,6 +81,7 @@ func H_C13_variable_hist() {
 				want = append(want, c13Pair{cur, nv})
 				verifrt.Cover("chain")
 			}
+			wantObs = append(wantObs, c13Pair{cur, nv})
 			cur = nv
 		} else {
 			verifrt.Cover("nochange")
@@ -82,6 +89,13 @@ func H_C13_variable_hist() {
 		verifrt.Assert(v.Get() == cur, "Get differs from the last written value")
 	}
 	verifrt.Assert(len(log) == len(want), "a subscriber did not observe exactly the state at subscription time followed by every later change once")
+	sameObs := len(obs) == len(wantObs)
+	for k := range obs {
+		if k < len(wantObs) {
+			sameObs = verifrt.And(sameObs, obs[k] == wantObs[k])
+		}
+	}
+	verifrt.Assert(sameObs, "a permanent subscriber missed (or saw twice) a change while another subscriber registered and unsubscribed")
 	for k := range log {
 		if k < len(want) {
 			verifrt.Assert(log[k] == want[k], "a callback reported a (previous, new) pair that differs from the change that happened")
